@@ -559,7 +559,7 @@ def run(spec, ctx):
             else:
                 run_emodcombi(ctx, idx, rng, tmp)
         except Exception as exc:
-            ctx.error(f"case {spec['kind']} {idx}", exc)
+            ctx.raised("c06.no_exception", f"case {spec['kind']} {idx}", exc)
         finally:
             p = tmp / f"c06_{idx}.rtdc"
             if p.exists():
